@@ -548,7 +548,7 @@ fn level2(ctx: &mut Ctx) {
     let aname = format!("marker-a{}.local", pid);
     let svc_c = format!("_vc{}._tcp.local", pid);
     let svc_e = format!("_ve{}._tcp.local", pid);
-    let (mut aresponder, adisc, _arx, _adisc_e) = {
+    let (mut aresponder, adisc, arx, _adisc_e) = {
         let _g = rt.enter();
         let mut ar = async_discovery::SimpleMdnsResponder::new(10);
         rt.block_on(ar.add_resource(ResourceRecord::new(Name::new(&aname).unwrap().into_owned(), CLASS::IN, 10, RData::A(A { address: 0x7F000002 }))));
@@ -559,6 +559,18 @@ fn level2(ctx: &mut Ctx) {
         let ae = async_discovery::ServiceDiscovery::new_with_scope(InstanceInformation::new("self".into()).with_port(5), &svc_e, 10, Some(txe), simple_mdns::NetworkScope::V4);
         (ar, ad, rx, ae)
     };
+    // the application drains its bounded on_discovery channel, as an application that asked for the channel does (a full
+    // channel nobody reads would make the listener wait by design, which is not the library's fault)
+    let drained = Arc::new(std::sync::atomic::AtomicU64::new(0));
+    {
+        let d = drained.clone();
+        let mut arx = arx;
+        rt.spawn(async move {
+            while arx.recv().await.is_some() {
+                d.fetch_add(1, Ordering::Relaxed);
+            }
+        });
+    }
     let markers = vec![
         Marker { what: "sync SimpleMdnsResponder", name: rname.clone(), qtype: TYPE::A },
         Marker { what: "sync ServiceDiscovery", name: svc_a.clone(), qtype: TYPE::PTR },
@@ -860,6 +872,7 @@ fn level2(ctx: &mut Ctx) {
         }
     }
     ctx.add("level2_datagrams_sent", sent);
+    ctx.add("level2_tokio_on_discovery_values_drained", drained.load(Ordering::Relaxed));
     rt.shutdown_timeout(Duration::from_millis(200));
 }
 
